@@ -4,6 +4,7 @@ import (
 	"fmt"
 	"math/rand"
 	"sync"
+	"sync/atomic"
 	"time"
 
 	"github.com/btcsuite/btcd/wire/v2"
@@ -11,6 +12,7 @@ import (
 	"github.com/lightninglabs/neutrino/blockntfns"
 
 	"verif/internal/chaingen"
+	"verif/internal/netsim"
 )
 
 // SubsPlan: real block subscriptions on the complete client while the honest
@@ -30,9 +32,46 @@ type SubsPlan struct {
 
 // SubsStep is one change of the honest chain.
 type SubsStep struct {
-	Kind  string // "grow" | "reorg"
-	N     int    // blocks added (grow) / new branch length minus depth (reorg)
+	Kind  string // "grow" | "reorg" | "lag-reorg"
+	N     int    // blocks added (grow, lag-reorg) / new branch length minus depth (reorg)
 	Depth int    // reorg depth
+	Extra int    // lag-reorg: new branch length minus depth (>= 1)
+}
+
+// SubsFixedLagReorg is the seed-independent scenario of the "lag-reorg" step
+// kind: while every peer withholds the filter headers the block headers grow
+// and some of the not-yet-committed ones are reorganised (fork point above
+// the filter-header tip); then the filter headers catch up.
+func SubsFixedLagReorg() SubsPlan {
+	return SubsPlan{Seed: 19_000_011, ChainLen: 40, Subs: 4, Peers: 2, Joiners: 6, Steps: []SubsStep{
+		{Kind: "grow", N: 2},
+		{Kind: "lag-reorg", N: 4, Depth: 2, Extra: 1},
+		{Kind: "grow", N: 1},
+		{Kind: "lag-reorg", N: 2, Depth: 1, Extra: 2},
+		{Kind: "reorg", Depth: 3, N: 1},
+		{Kind: "lag-reorg", N: 5, Depth: 3, Extra: 1},
+	}}
+}
+
+// SubsPlanWithLagFromSeed is SubsPlanFromSeed with, for about half of the
+// (seed, k) pairs, one or two "lag-reorg" steps inserted at drawn positions
+// (own random stream: the other steps are those of SubsPlanFromSeed).
+func SubsPlanWithLagFromSeed(seed int64, k int) SubsPlan {
+	p := SubsPlanFromSeed(seed, k)
+	r := rand.New(rand.NewSource(seed*6_000_011 + int64(k)*104_729 + 11))
+	if r.Intn(2) != 0 {
+		return p
+	}
+	for n := 1 + r.Intn(2); n > 0; n-- {
+		st := SubsStep{Kind: "lag-reorg", N: 2 + r.Intn(4), Extra: 1 + r.Intn(3)}
+		st.Depth = 1 + r.Intn(3)
+		if st.Depth > st.N {
+			st.Depth = st.N
+		}
+		at := r.Intn(len(p.Steps) + 1)
+		p.Steps = append(p.Steps[:at], append([]SubsStep{st}, p.Steps[at:]...)...)
+	}
+	return p
 }
 
 // SubsPlanFromSeed derives a plan.
@@ -112,6 +151,18 @@ func (m *subModel) apply(n blockntfns.BlockNtfn) {
 // RunSubs executes the plan and fills res.
 func RunSubs(p SubsPlan, res *Result) {
 	res.Fingerprint = fmt.Sprintf("subs|len=%s|subs=%d|steps=%d", map[bool]string{true: "checkpointed", false: "short"}[p.ChainLen >= 1000], p.Subs, len(p.Steps))
+	lagSteps := 0
+	for _, st := range p.Steps {
+		if st.Kind == "lag-reorg" {
+			lagSteps++
+		}
+	}
+	if lagSteps > 0 {
+		res.Fingerprint += fmt.Sprintf("|lag-reorgs=%d", lagSteps)
+	}
+	// withhold: while set, no peer answers getcfheaders / getcfcheckpt (the
+	// filter headers lag behind the block headers).
+	var withhold atomic.Bool
 	w := NewWorld(Config{Seed: p.Seed, Preset: chaingen.PresetNoRetarget, SpacingSec: 4,
 		GenesisAgo: time.Duration(p.ChainLen+200) * 6 * time.Second})
 	defer w.Cleanup()
@@ -119,7 +170,18 @@ func RunSubs(p SubsPlan, res *Result) {
 	trunk := g.Extend(g.Genesis, p.ChainLen, chaingen.PaceNormal)
 	tip := trunk[len(trunk)-1]
 	for i := 0; i < p.Peers; i++ {
-		w.AddPeer(tip)
+		pr := w.AddPeer(tip)
+		if lagSteps > 0 {
+			pr.Mutate = func(_ *netsim.Peer, req wire.Message, honest []wire.Message) []wire.Message {
+				switch req.(type) {
+				case *wire.MsgGetCFHeaders, *wire.MsgGetCFCheckpt:
+					if withhold.Load() {
+						return nil
+					}
+				}
+				return honest
+			}
+		}
 	}
 	if err := w.StartClient(nil, ClientOpts{}); err != nil {
 		res.Inconcl("client start: " + err.Error())
@@ -134,7 +196,9 @@ func RunSubs(p SubsPlan, res *Result) {
 	src := &neutrino.RescanChainSource{ChainService: w.Svc}
 	var subsMu sync.Mutex
 	var subs []*subModel
-	// addSub subscribes from a drawn height (fixed < 0) or from the given one.
+	// addSub subscribes from a drawn height (fixed == -1), from height 0
+	// (fixed == -2; only while the filter-header tip cannot move) or from the
+	// given one.
 	// Joiners (fixed >= 0) run on their own goroutines WHILE the client is
 	// adopting a chain change; they use a height far below every
 	// reorganisation of the plan, so what they hold is well defined.
@@ -147,6 +211,8 @@ func RunSubs(p SubsPlan, res *Result) {
 		switch {
 		case fixed >= 0:
 			from = uint32(fixed)
+		case fixed == -2:
+			from = 0
 		default:
 			switch rng.Intn(4) {
 			case 0:
@@ -185,7 +251,7 @@ func RunSubs(p SubsPlan, res *Result) {
 		m.id = len(subs)
 		subs = append(subs, m)
 		subsMu.Unlock()
-		if fixed >= 0 {
+		if fixed >= 0 || fixed == -2 {
 			res.Count("subscribers_joined_during_a_chain_change", 1)
 		}
 		go func() {
@@ -279,9 +345,119 @@ func RunSubs(p SubsPlan, res *Result) {
 		addSub(-1)
 	}
 	cur := tip
+	// lagReorg: every peer withholds the filter headers; the block headers
+	// grow by st.N and st.Depth of those never-committed blocks are then
+	// reorganised (fork point above the filter-header tip, which stays where
+	// it is); subscribers join at each moment; then the peers answer again
+	// and the filter headers catch up. Returns the new tip, or nil + reason.
+	lagReorg := func(st SubsStep) (*chaingen.Node, string) {
+		blockTipIs := func(n *chaingen.Node) bool {
+			hd, h, err := w.Svc.BlockHeaders.ChainTip()
+			return err == nil && int32(h) == n.Height && hd.BlockHash() == n.Hash
+		}
+		show := func(n *chaingen.Node) bool {
+			for _, pr := range w.Peers {
+				pr.View.SetTip(n)
+			}
+			for _, pr := range w.Peers {
+				if pr.Conn() != nil {
+					pr.AnnounceHeaders(n)
+				}
+			}
+			return WaitFor(40*time.Second, func() bool { return blockTipIs(n) })
+		}
+		_, F, err := w.Svc.RegFilterHeaders.ChainTip()
+		if err != nil || int32(F) != cur.Height {
+			return nil, "filter-header tip not at the honest tip before a lag-reorg step"
+		}
+		withhold.Store(true)
+		defer withhold.Store(false)
+		ext := g.Extend(cur, st.N, chaingen.PaceNormal)
+		mid := ext[len(ext)-1]
+		if !show(mid) {
+			return nil, "block headers not adopted within 40 s while filter headers were withheld"
+		}
+		// Block headers ahead of filter headers: the filter tip cannot move.
+		addSub(1)
+		addSub(-2)
+		d := st.Depth
+		if d > st.N {
+			d = st.N
+		}
+		extra := st.Extra
+		if extra < 1 {
+			extra = 1 // a branch of equal work is not adopted
+		}
+		fork := mid.Ancestor(mid.Height - int32(d))
+		br := g.Extend(fork, d+extra, chaingen.PaceNormal)
+		nt := br[len(br)-1]
+		var jw sync.WaitGroup
+		jw.Add(1)
+		go func() {
+			defer jw.Done()
+			for j := 0; j < p.Joiners; j++ {
+				switch j % 3 {
+				case 0:
+					addSub(1)
+				case 1:
+					addSub(int64(F))
+				default:
+					addSub(-2)
+				}
+				time.Sleep(time.Duration(1+j%4) * time.Millisecond)
+			}
+		}()
+		ok := show(nt)
+		jw.Wait()
+		if !ok {
+			return nil, "re-organisation of block headers not adopted within 40 s while filter headers were withheld"
+		}
+		if _, F2, err := w.Svc.RegFilterHeaders.ChainTip(); err == nil && F2 == F {
+			res.Count("reorgs_with_fork_point_above_the_filter_tip", 1)
+			res.Count("never_committed_block_headers_disconnected", int64(d))
+			res.Count("block_headers_left_above_the_filter_tip_after_such_a_reorg", int64(st.N-d))
+		}
+		addSub(int64(F))
+		// Release; subscribers from height 1 join while the filter headers
+		// catch up.
+		withhold.Store(false)
+		jw.Add(1)
+		jstop := make(chan struct{})
+		go func() {
+			defer jw.Done()
+			for j := 0; j < p.Joiners; j++ {
+				select {
+				case <-jstop:
+					return
+				default:
+				}
+				addSub(1)
+				time.Sleep(time.Duration(1+j%4) * time.Millisecond)
+			}
+		}()
+		ok = WaitFor(90*time.Second, func() bool { return w.SyncedTo(nt) })
+		close(jstop)
+		jw.Wait()
+		if !ok {
+			return nil, "client did not catch up with the released filter headers within 90 s (C04's subject)"
+		}
+		res.Count("lag_reorg_steps", 1)
+		return nt, ""
+	}
 	for si, st := range p.Steps {
 		if si%2 == 1 && len(snapshot()) < p.Subs {
 			addSub(-1)
+		}
+		if st.Kind == "lag-reorg" {
+			nt, why := lagReorg(st)
+			if nt == nil {
+				res.Inconcl(why)
+				return
+			}
+			cur = nt
+			res.Count("chain_steps", 1)
+			check(st.Kind)
+			continue
 		}
 		var nt *chaingen.Node
 		switch st.Kind {
